@@ -27,12 +27,13 @@ CHECKS = {
     'C18': dict(
         technique='Lean 4 proofs over an executable model of _unpack_euler16 (integer split over Nat; real layer polymorphic, R for theorems, Float in the driver) with constants regenerated from the source + exhaustive differential run over all 65 340 codes',
         text='split_bijective, triad_orthonormal (for every cap and ALL real xx, yy, az, hence every code: unit norms, mutual orthogonality, middle = minor x major), '
-             'major_injective_in_cap, caps_disjoint, minor_injective, decode_injective (distinct valid codes decode to distinct triads), norm_cap_edge. The constants '
+             'major_injective_in_cap, caps_disjoint, minor_injective, decode_injective (distinct valid codes decode to distinct triads), norm_cap_edge, and the coverage clause: '
+             'coverage (for EVERY unit vector v there is a valid code whose decoded major axis m satisfies 1 - (v.m)^2 <= 0.00665) and coverage_degrees (arccos|v.m| <= 4.7 degrees), proved by an explicit inverse of the '
+             'parameter map on each cap region, bin-centre nets checked by norm_num on the regenerated EULER_NORM/EULER_TBIN, and a row-by-row bound of the own-cell angle. The constants '
              'EULER_ABIN/TBIN/NORM are regenerated from the imported module on every run and the theorems are stated over them. The model is tied to the code by an '
-             'exhaustive run of the real _unpack_euler16 (bit-identical to the Float instance of the model on all 65 340 codes) and of the six eigenvector halo columns through the real loader; '
-             'an oracle checks orthonormality, handedness and pairwise distinctness on the implementation output. PARTIAL: the coverage clause (about 4 degrees) is proved only as '
-             'coverage_partial (cap tiling, parameter nets, cap-edge exactness); the measured covering radius (3.1 degrees) is reported as a test, not a theorem.',
-        note='Partial on the coverage clause. Theorems are over exact reals; float rounding is covered only by the exhaustive differential run. np.floor(np.sqrt(uint16)) is modelled by Nat.sqrt (checked on every code).',
+             'exhaustive run of the real _unpack_euler16 (bit-identical to the Float instance of the model on all 65 340 codes) and of the six eigenvector halo columns through the real loader for every requested subset; '
+             'an oracle checks orthonormality, handedness, pairwise distinctness and that each column holds its own axis on the implementation output.',
+        note='The proved covering bound (4.678 degrees) is the own-cell bound; the measured covering radius of the implementation (3.14 degrees) is reported as a test. Theorems are over exact reals; float rounding is covered only by the exhaustive differential run. np.floor(np.sqrt(uint16)) is modelled by Nat.sqrt (checked on every code).',
         design='§7 C18'),
     'C15': dict(
         technique='Lean 4 proof (nibble shuffle as arithmetic, bijection with six 12-bit fields; induction over the record stream with header state and write counter; rational round-trip bounds) + correspondence of the compiled model driver with pack9.unpack_pack9 (bounds-checked), _unpack_pack9.py_func and _expand_to_short',
